@@ -181,7 +181,36 @@ func C15_Targets() {
 // block must overwrite them; an empty slice binding still validates its
 // target.
 func C15_Preloaded() {
-	switch verif.Choice("case", 3) {
+	switch verif.Choice("case", 6) {
+	case 3: // pointers to binding values are bindings too (the method set of
+		// *StructBinding includes binding()): an error or nil, never a panic
+		var t TOdd
+		var ps *bcl.StructBinding
+		var pl *bcl.SliceBinding
+		verif.Assert(bcl.Bind(&t, ps) != nil, "a typed nil *StructBinding stores nothing, so it is an error")
+		verif.Assert(bcl.Bind(&t, pl) != nil, "a typed nil *SliceBinding stores nothing, so it is an error")
+		_ = bcl.Bind(&t, &bcl.StructBinding{Value: bcl.Block{Type: "todd"}})
+		_ = bcl.Bind(&[]TOdd{}, &bcl.SliceBinding{})
+	case 4: // two distinct struct types with the same name and different tags
+		v, w := verif.Int("v"), verif.Int("w")
+		verif.Assert(c15LocalA(v) == v, "first type binds its tagged field")
+		verif.Assert(c15LocalB(w) == w, "second type (same name, other layout) binds its own tagged field")
+		verif.Assert(c15LocalA(w) == w, "first type again")
+	case 5: // a slice binding whose later block fails leaves the target alone,
+		// also when the target has spare capacity
+		ts := make([]TOdd, 2, 4)
+		ts[0], ts[1] = TOdd{Name: "old0", Count: 1}, TOdd{Name: "old1", Count: 2}
+		good := bcl.Block{Type: "todd", Name: "new", Fields: map[string]any{"count": verif.Int("v")}}
+		bad := bcl.Block{Type: "todd", Name: "bad", Fields: map[string]any{"nosuch": 1}}
+		var blocks []bcl.Block
+		if verif.Choice("order", 2) == 0 {
+			blocks = []bcl.Block{good, bad}
+		} else {
+			blocks = []bcl.Block{good, good, bad}
+		}
+		err := bcl.Bind(&ts, bcl.SliceBinding{Value: blocks})
+		verif.Assert(err != nil, "the failing block is reported")
+		verif.Assert(len(ts) == 2 && ts[0].Name == "old0" && ts[0].Count == 1 && ts[1].Name == "old1" && ts[1].Count == 2, "on error a slice target keeps its previous contents")
 	case 0:
 		t := TOdd{Count: 5, Text: "old", Flag: true, Float: 2.5}
 		kind := verif.Choice("kind", 4)
@@ -227,4 +256,34 @@ func C15_Preloaded() {
 		verif.Assert(err == nil && len(ts) == 0, "an empty slice binding empties the target")
 	}
 	verif.Reach("returned")
+}
+
+func c15LocalA(v int) int {
+	type T struct {
+		A int `bcl:"k"`
+		B int
+	}
+	var t T
+	if err := bcl.Bind(&t, bcl.StructBinding{Value: bcl.Block{Type: "t", Fields: map[string]any{"k": v}}}); err != nil {
+		return -1
+	}
+	if t.B != 0 {
+		return -2
+	}
+	return t.A
+}
+
+func c15LocalB(v int) int {
+	type T struct {
+		B int
+		A int `bcl:"k"`
+	}
+	var t T
+	if err := bcl.Bind(&t, bcl.StructBinding{Value: bcl.Block{Type: "t", Fields: map[string]any{"k": v}}}); err != nil {
+		return -1
+	}
+	if t.B != 0 {
+		return -2
+	}
+	return t.A
 }
